@@ -2496,7 +2496,10 @@ class GenericInterBranch(InterBranch):
                     # that we push from the source branch again, because it's
                     # considered the highest bandwidth repository.
                     result = self._basic_push(
-                        overwrite, stop_revision, tag_selector=tag_selector
+                        overwrite,
+                        stop_revision,
+                        tag_selector=tag_selector,
+                        ignore_master=True,
                     )
                     result.master_branch = master_branch
                     result.local_branch = self.target
@@ -2515,10 +2518,17 @@ class GenericInterBranch(InterBranch):
                 _run_hooks()
             return result
 
-    def _basic_push(self, overwrite, stop_revision, tag_selector=None):
+    def _basic_push(
+        self, overwrite, stop_revision, tag_selector=None, ignore_master=False
+    ):
         """Basic implementation of push without bound branches or hooks.
 
         Must be called with source read locked and target write locked.
+
+        Args:
+          ignore_master: the caller has already pushed (tags included) into
+            the target's master branch and still holds its write lock, so
+            tags must not be merged into the master a second time.
         """
         result = BranchPushResult()
         result.source_branch = self.source
@@ -2534,7 +2544,10 @@ class GenericInterBranch(InterBranch):
             )
         if self.source._push_should_merge_tags():
             result.tag_updates, result.tag_conflicts = self.source.tags.merge_to(
-                self.target.tags, "tags" in overwrite, selector=tag_selector
+                self.target.tags,
+                "tags" in overwrite,
+                ignore_master=ignore_master,
+                selector=tag_selector,
             )
         self.update_references()
         result.new_revno, result.new_revid = self.target.last_revision_info()
@@ -2593,10 +2606,15 @@ class GenericInterBranch(InterBranch):
             # TODO: The old revid should be specified when merging tags,
             # so a tags implementation that versions tags can only
             # pull in the most recent changes. -- JRV20090506
+            # When _hook_master is set, pull() has already pulled from the
+            # source into that (write-locked) master branch object, tags
+            # included; asking merge_to() to update the master again would
+            # open and lock a second object for the same branch and contend
+            # with our own lock.
             result.tag_updates, result.tag_conflicts = self.source.tags.merge_to(
                 self.target.tags,
                 "tags" in overwrite,
-                ignore_master=not merge_tags_to_master,
+                ignore_master=(not merge_tags_to_master) or _hook_master is not None,
                 selector=tag_selector,
             )
             self.update_references()
